@@ -1,17 +1,19 @@
 (* C16 — bridge imports are idempotent, incremental and resumable. Property theorems only.
-   Model: Import.v (GitLab importer behind core.Bridge). cfg: c_dedupe_labels / c_list_error are the two repairs
-   (both false = the pinned tree), c_graphic is unicode.IsGraphic. wf_tracker: per issue, note ids distinct and different
+   Model: Import.v (GitLab importer behind core.Bridge). cfg: one flag per repair (c_dedupe_labels, c_list_error, c_clean_title,
+   c_clean_ident, c_empty_text, c_next_page, c_ghost; all false = the tree before the repairs: `pinned`), c_graphic is
+   unicode.IsGraphic, c_totals says whether the server sends X-Total-Pages. paging_ok c p: the page size is positive and the
+   listings are followed to their end (c_next_page, or c_totals). wf_tracker: per issue, note ids distinct and different
    from the IID, IIDs distinct. ids_disjoint: IID, note ids, label event ids, state event ids pairwise distinct. *)
 From Coq Require Import String List Arith NArith Bool Lia.
 Import ListNotations.
-From GB Require Import Import ImportText ImportProofs.
+From GB Require Import Import ImportText ImportProofs ImportNoError.
 Local Open Scope N_scope.
 
 (* -------- idempotent -------- *)
 
 (* an import round followed by a round of the same kind on the unchanged tracker adds no bug, identity or operation *)
 Theorem C16_idempotent c t p full now now' idents bugs cursor :
-  c_dedupe_labels c = true -> (1 <= p)%nat -> wf_tracker t -> bugs_ok c t bugs ->
+  c_dedupe_labels c = true -> paging_ok c p -> wf_tracker t -> bugs_ok c t bugs ->
   match cursor with Some x => x <= now - 5 | None => True end ->
   let o1 := run_round c t p full now None idents bugs cursor in
   let o2 := run_round c t p full now' None (out_idents o1) (out_bugs o1) (out_cursor o1) in
@@ -21,7 +23,7 @@ Print Assumptions C16_idempotent.
 
 (* the same for any later listing: the same one (even if the first run was stopped by an issue it could not create),
    or any part of a listing that was gone through to its end *)
-Theorem C16_idempotent_listing c t p since s : c_dedupe_labels c = true -> (1 <= p)%nat -> wf_tracker t -> rs_fault s = None -> bugs_ok c t (rs_bugs s) ->
+Theorem C16_idempotent_listing c t p since s : c_dedupe_labels c = true -> paging_ok c p -> wf_tracker t -> rs_fault s = None -> bugs_ok c t (rs_bugs s) ->
   let r1 := import_all c t p since s in
   forall since' s', rs_fault s' = None -> rs_idents s' = rs_idents (fst r1) -> rs_bugs s' = rs_bugs (fst r1) ->
   since' = since \/ (snd r1 = true /\ forall i, In i (listed t since') -> In i (listed t since)) ->
@@ -35,7 +37,7 @@ Print Assumptions C16_idempotent_listing.
 (* a clean run that is not stopped only appends, every gitlab-id stays unique, and afterwards the id of an event (other
    than a description change, which carries no stable id) is there exactly if it was there before or the event is
    importable and its author can be had: exactly the new events are imported, once *)
-Theorem C16_incremental c t p since s : c_dedupe_labels c = true -> (1 <= p)%nat -> wf_tracker t ->
+Theorem C16_incremental c t p since s : c_dedupe_labels c = true -> paging_ok c p -> wf_tracker t ->
   (forall i, In i (listed t since) -> ids_disjoint i) -> rs_fault s = None -> bugs_ok c t (rs_bugs s) ->
   no_stop c (t_users t) (listed t since) (rs_idents s) (rs_bugs s) ->
   let r := import_all c t p since s in
@@ -83,7 +85,7 @@ Print Assumptions C16_failure_reported.
 
 (* a run in which any one request fails, followed by a clean run over the same listing (the cursor did not move), has
    imported the same events, each once, as a run that never failed *)
-Theorem C16_resume c t p since idents bugs q : c_dedupe_labels c = true -> (1 <= p)%nat -> wf_tracker t ->
+Theorem C16_resume c t p since idents bugs q : c_dedupe_labels c = true -> paging_ok c p -> wf_tracker t ->
   (forall i, In i (listed t since) -> ids_disjoint i) -> bugs_ok c t bugs ->
   no_stop c (t_users t) (listed t since) idents bugs ->
   let clean := fst (import_all c t p since (mkrs idents bugs [] [] None)) in
@@ -126,8 +128,8 @@ Definition u12 := mkuser 12 (lit "user 12") (lit "u12") (lit "u12@example.org") 
 (* (a) pinned tree: the label event is imported again by the second run *)
 Definition t_label := mktracker [u11; u12] [mkissue 1 11 101 104 (lit "T one") (lit "d") [] [mklab 201 12 0 (lit "bug") 104] []].
 Theorem C16_idempotent_refuted_pinned : exists t, wf_tracker t /\ (forall i, In i (t_issues t) -> ids_disjoint i) /\
-  let o1 := run_round (pinned gr) t 20 true 110 None [] [] None in
-  let o2 := run_round (pinned gr) t 20 true 120 None (out_idents o1) (out_bugs o1) (out_cursor o1) in
+  let o1 := run_round (pinned gr true) t 20 true 110 None [] [] None in
+  let o2 := run_round (pinned gr true) t 20 true 120 None (out_idents o1) (out_bugs o1) (out_cursor o1) in
   has_error (out_res o1) = false /\ out_bugs o2 <> out_bugs o1.
 Proof. exists t_label. split; [|split].
   - split; [repeat constructor; cbn; tauto|repeat constructor; cbn; tauto].
@@ -140,9 +142,9 @@ Print Assumptions C16_idempotent_refuted_pinned.
 Definition t_two := mktracker [u11; u12]
   [mkissue 1 11 101 101 (lit "T one") (lit "d1") [] [] []; mkissue 2 12 102 103 (lit "T two") (lit "d2") [mknote 101 11 false (lit "hello") 103 103] [] []].
 Theorem C16_resume_refuted_pinned : exists t q,
-  let o1 := run_round (pinned gr) t 1 false 200 (Some q) [] [] None in
-  let o2 := run_round (pinned gr) t 1 false 210 None (out_idents o1) (out_bugs o1) (out_cursor o1) in
-  let oc := run_round (pinned gr) t 1 false 200 None [] [] None in
+  let o1 := run_round (pinned gr true) t 1 false 200 (Some q) [] [] None in
+  let o2 := run_round (pinned gr true) t 1 false 210 None (out_idents o1) (out_bugs o1) (out_cursor o1) in
+  let oc := run_round (pinned gr true) t 1 false 200 None [] [] None in
   out_reqs o1 <> out_reqs oc /\ has_error (out_res o1) = false /\ out_stored o1 = true /\
   find_bug 2 (out_bugs oc) <> None /\ find_bug 2 (out_bugs o2) = None.
 Proof. exists t_two, (QIssues 2). vm_compute. repeat split; try discriminate. Qed.
@@ -153,7 +155,7 @@ Print Assumptions C16_resume_refuted_pinned.
 Definition t_shared := mktracker [u11; u12]
   [mkissue 1 11 101 105 (lit "T one") (lit "the description") [mknote 1 12 false (lit "a comment") 105 105] [] []].
 Theorem C16_shared_id_refuted : exists t, (forall i, In i (t_issues t) -> ~ ids_disjoint i) /\
-  let o := run_round (fixed gr) t 20 true 110 None [] [] None in
+  let o := run_round (fixed gr true) t 20 true 110 None [] [] None in
   has_error (out_res o) = false /\
   match find_bug 1 (out_bugs o) with
   | Some b => comment_text (b_ops b) 0 = Some (lit "a comment") /\ existsb (fun o => match o_k o with OComment _ => true | _ => false end) (b_ops b) = false
@@ -169,9 +171,9 @@ Definition t_titles := mktracker [u11; u12]
   [mkissue 1 11 101 108 (lit "T c") (lit "d")
      [mknote 101 12 true (lit "changed title from **T a** to **T b**") 105 105; mknote 102 11 true (lit "changed title from **T b** to **T c**") 108 108] [] []].
 Theorem C16_resume_order_refuted : exists t q,
-  let o1 := run_round (fixed gr) t 20 false 110 (Some q) [] [] None in
-  let o2 := run_round (fixed gr) t 20 false 112 None (out_idents o1) (out_bugs o1) (out_cursor o1) in
-  let oc := run_round (fixed gr) t 20 false 110 None [] [] None in
+  let o1 := run_round (fixed gr true) t 20 false 110 (Some q) [] [] None in
+  let o2 := run_round (fixed gr true) t 20 false 112 None (out_idents o1) (out_bugs o1) (out_cursor o1) in
+  let oc := run_round (fixed gr true) t 20 false 110 None [] [] None in
   has_error (out_res o1) = true /\ out_cursor o1 = None /\ has_error (out_res o2) = false /\
   match find_bug 1 (out_bugs o2), find_bug 1 (out_bugs oc) with
   | Some b2, Some bc => cur_title (b_ops b2) [] = lit "T b" /\ cur_title (b_ops bc) [] = lit "T c"
@@ -182,8 +184,8 @@ Print Assumptions C16_resume_order_refuted.
 (* -------- the hypotheses are satisfiable, the conclusions are not vacuous -------- *)
 
 Example C16_example_hypotheses :
-  wf_tracker t_two /\ (forall i, In i (listed t_two None) -> ids_disjoint i) /\ bugs_ok (fixed gr) t_two [] /\
-  no_stop (fixed gr) (t_users t_two) (listed t_two None) [] [].
+  wf_tracker t_two /\ (forall i, In i (listed t_two None) -> ids_disjoint i) /\ bugs_ok (fixed gr true) t_two [] /\
+  no_stop (fixed gr true) (t_users t_two) (listed t_two None) [] [].
 Proof. split; [|split; [|split]].
   - split; [repeat constructor; cbn; intuition discriminate|repeat constructor; cbn; intuition discriminate].
   - intros i [<-|[<-|[]]]; unfold ids_disjoint; cbn; repeat constructor; cbn; intuition discriminate.
@@ -192,14 +194,186 @@ Proof. split; [|split; [|split]].
 
 (* one page per issue: the repaired importer, first run then a second one: 2 bugs, 3 operations, then nothing *)
 Example C16_example_run :
-  let o1 := run_round (fixed gr) t_two 1 false 200 None [] [] None in
-  let o2 := run_round (fixed gr) t_two 1 false 204 None (out_idents o1) (out_bugs o1) (out_cursor o1) in
+  let o1 := run_round (fixed gr true) t_two 1 false 200 None [] [] None in
+  let o2 := run_round (fixed gr true) t_two 1 false 204 None (out_idents o1) (out_bugs o1) (out_cursor o1) in
   map (fun b => List.length (b_ops b)) (out_bugs o1) = [1%nat; 2%nat] /\ out_cursor o1 = Some 195 /\ out_bugs o2 = out_bugs o1 /\ out_res o2 = [].
 Proof. vm_compute. repeat split. Qed.
 
 (* the repaired importer on the two counter-examples of the pinned tree *)
 Example C16_example_repaired :
-  (let o1 := run_round (fixed gr) t_label 20 true 110 None [] [] None in
-   let o2 := run_round (fixed gr) t_label 20 true 120 None (out_idents o1) (out_bugs o1) (out_cursor o1) in out_bugs o2 = out_bugs o1) /\
-  (let o1 := run_round (fixed gr) t_two 1 false 200 (Some (QIssues 2)) [] [] None in has_error (out_res o1) = true /\ out_cursor o1 = None).
+  (let o1 := run_round (fixed gr true) t_label 20 true 110 None [] [] None in
+   let o2 := run_round (fixed gr true) t_label 20 true 120 None (out_idents o1) (out_bugs o1) (out_cursor o1) in out_bugs o2 = out_bugs o1) /\
+  (let o1 := run_round (fixed gr true) t_two 1 false 200 (Some (QIssues 2)) [] [] None in has_error (out_res o1) = true /\ out_cursor o1 = None).
 Proof. vm_compute. repeat split. Qed.
+
+(* ======== the repairs that followed the audit of the unchanged tree ======== *)
+
+(* -------- listings without X-Total-Pages -------- *)
+
+(* a listing in which no request fails returns every item, whether or not the server sends X-Total-Pages *)
+Theorem C16_listing_complete (A : Type) c (mk : nat -> req) p (l : list A) s : paging_ok c p -> rs_fault s = None ->
+  snd (fst (fetch_all c mk p l s)) = l /\ snd (fetch_all c mk p l s) = false.
+Proof. exact (listing_complete c mk p l s). Qed.
+Print Assumptions C16_listing_complete.
+Example C16_paging_ok_without_totals p : (1 <= p)%nat -> paging_ok (fixed gr false) p.
+Proof. intros H. split; [exact H|now left]. Qed.
+
+(* before the repair, a server that does not send X-Total-Pages: the listings stop after their first page, no error is
+   relayed, the cursor is stored and the second issue is never imported *)
+Theorem C16_no_totals_refuted_pinned : exists t,
+  let o1 := run_round (pinned gr false) t 1 false 200 None [] [] None in
+  let o2 := run_round (pinned gr false) t 1 false 210 None (out_idents o1) (out_bugs o1) (out_cursor o1) in
+  has_error (out_res o1) = false /\ out_stored o1 = true /\ find_bug 2 (out_bugs o1) = None /\ find_bug 2 (out_bugs o2) = None /\
+  find_bug 2 (out_bugs (run_round (fixed gr false) t 1 false 200 None [] [] None)) <> None.
+Proof. exists t_two. vm_compute. repeat split. discriminate. Qed.
+Print Assumptions C16_no_totals_refuted_pinned.
+
+(* -------- events of deleted users -------- *)
+
+(* the author of an event whose user was deleted ("user": null, id 0) is always there, without any request *)
+Theorem C16_deleted_user_author c us s : c_ghost c = true ->
+  let r := ensure_person c us 0 s in
+  snd r = true /\ rs_reqs (fst r) = rs_reqs s /\ rs_fault (fst r) = rs_fault s /\ In 0 (rs_idents (fst r)).
+Proof. exact (deleted_user_author c us s). Qed.
+Print Assumptions C16_deleted_user_author.
+(* hence person_ok holds for such events in C16_incremental and C16_resume *)
+Theorem C16_deleted_user_ok c us idents : c_ghost c = true -> person_ok c us idents 0 = true.
+Proof. exact (deleted_user_ok c us idents). Qed.
+Print Assumptions C16_deleted_user_ok.
+
+Definition t_deleted := mktracker [u11]
+  [mkissue 1 11 101 106 (lit "T one") (lit "d") [] [mklab 201 0 0 (lit "bug") 105] [mkst 301 0 0 106]].
+Theorem C16_deleted_user_refuted_pinned : exists t, wf_tracker t /\ (forall i, In i (t_issues t) -> ids_disjoint i) /\
+  let o1 := run_round (pinned gr true) t 20 false 110 None [] [] None in
+  let o2 := run_round (pinned gr true) t 20 false 120 None (out_idents o1) (out_bugs o1) (out_cursor o1) in
+  let of := run_round (fixed gr true) t 20 false 110 None [] [] None in
+  has_error (out_res o1) = true /\ has_error (out_res o2) = true /\ out_cursor o2 = None /\
+  map (fun b => List.length (b_ops b)) (out_bugs o2) = [1%nat] /\
+  has_error (out_res of) = false /\ map (fun b => List.length (b_ops b)) (out_bugs of) = [3%nat].
+Proof. exists t_deleted. split; [|split].
+  - split; [repeat constructor; cbn; tauto|repeat constructor; cbn; tauto].
+  - intros i [<-|[]]. unfold ids_disjoint. cbn. repeat constructor; cbn; intuition discriminate.
+  - vm_compute. repeat split. Qed.
+Print Assumptions C16_deleted_user_refuted_pinned.
+
+(* -------- texts: titles, labels, users -------- *)
+
+(* the new title of a title change is never refused, unless nothing at all is left of it *)
+Theorem C16_title_change_valid c t : c_clean_title c = true -> c_empty_text c = true -> title_valid c placeholder = true ->
+  cleanup1 t <> [] -> title_valid c (note_title c t) = true.
+Proof. exact (note_title_valid c t). Qed.
+Print Assumptions C16_title_change_valid.
+
+(* the create operation of an issue is never refused, so no issue stops the run because of its title: no_stop (the
+   hypothesis of C16_incremental and C16_resume) only asks for the authors of the issues *)
+Theorem C16_issue_never_refused c iss : c_empty_text c = true -> title_valid c placeholder = true -> op_valid c (create_op c iss) = true.
+Proof. exact (issue_title_valid c iss). Qed.
+Print Assumptions C16_issue_never_refused.
+Theorem C16_no_stop_on_title c us l idents bugs : c_empty_text c = true -> title_valid c placeholder = true ->
+  (forall i, In i l -> person_ok c us idents (i_author i) = true) -> no_stop c us l idents bugs.
+Proof. exact (no_stop_authors c us l idents bugs). Qed.
+Print Assumptions C16_no_stop_on_title.
+
+(* a label event names no label and is skipped, or its label is valid *)
+Theorem C16_label_skipped_or_valid c e : c_empty_text c = true -> no_label c e = true \/ label_valid c (label_name e) = true.
+Proof. exact (label_skipped_or_valid c e). Qed.
+Print Assumptions C16_label_skipped_or_valid.
+
+(* a user is refused only when neither the name nor the login has a visible character *)
+Theorem C16_user_texts_cleaned c u : c_clean_ident c = true ->
+  ident_valid c u = negb (text_empty (c_graphic c) (cleanup1 (u_name u)) && text_empty (c_graphic c) (cleanup1 (u_login u))).
+Proof. exact (ident_valid_clean c u). Qed.
+Print Assumptions C16_user_texts_cleaned.
+
+(* unicode.IsGraphic on what the witnesses below contain: not the control characters, not the zero width space *)
+Definition gr2 (r : N) : bool := negb (is_control r) && negb (r =? 8203).
+Example C16_placeholder_valid : title_valid (fixed gr2 true) placeholder = true.
+Proof. reflexivity. Qed.
+
+(* before the repair: the new title holds a tabulation; the title change is refused at every run, the cursor does not move
+   any more, and the bug keeps a title that a fresh import of the same tracker does not give *)
+Definition t_title0 := mktracker [u11] [mkissue 1 11 101 101 (lit "T a") (lit "d") [] [] []].
+Definition t_title1 := mktracker [u11]
+  [mkissue 1 11 101 120 (lit "T" ++ [9] ++ lit "b") (lit "d")
+     [mknote 101 11 true (lit "changed title from **T a** to **T" ++ [9] ++ lit "b**") 120 120] [] []].
+Theorem C16_title_change_refuted_pinned : exists t0 t,
+  let o1 := run_round (pinned gr2 true) t0 20 false 110 None [] [] None in
+  let o2 := run_round (pinned gr2 true) t 20 false 130 None (out_idents o1) (out_bugs o1) (out_cursor o1) in
+  let o3 := run_round (pinned gr2 true) t 20 false 140 None (out_idents o2) (out_bugs o2) (out_cursor o2) in
+  let fresh := run_round (pinned gr2 true) t 20 false 130 None [] [] None in
+  let r2 := run_round (fixed gr2 true) t 20 false 130 None (out_idents o1) (out_bugs o1) (out_cursor o1) in
+  has_error (out_res o1) = false /\ has_error (out_res o2) = true /\ has_error (out_res o3) = true /\ out_cursor o3 = out_cursor o1 /\
+  cur_title (ops_of 1 (out_bugs o3)) [] = lit "T a" /\ cur_title (ops_of 1 (out_bugs fresh)) [] = lit "Tb" /\
+  has_error (out_res r2) = false /\ cur_title (ops_of 1 (out_bugs r2)) [] = lit "Tb".
+Proof. exists t_title0, t_title1. vm_compute. repeat split. Qed.
+Print Assumptions C16_title_change_refuted_pinned.
+
+(* before the repair: the title of the first issue is a zero width space; the run stops there at every run and the second
+   issue is never imported *)
+Definition t_invisible := mktracker [u11]
+  [mkissue 1 11 101 101 [8203] (lit "d1") [] [] []; mkissue 2 11 102 104 (lit "T two") (lit "d2") [] [mklab 201 11 0 [8203] 104] []].
+Theorem C16_invisible_title_refuted_pinned : exists t,
+  let o1 := run_round (pinned gr2 true) t 20 false 110 None [] [] None in
+  let o2 := run_round (pinned gr2 true) t 20 false 120 None (out_idents o1) (out_bugs o1) (out_cursor o1) in
+  let of := run_round (fixed gr2 true) t 20 false 110 None [] [] None in
+  has_error (out_res o1) = true /\ out_bugs o2 = [] /\ out_cursor o2 = None /\
+  has_error (out_res of) = false /\ map (fun b => List.length (b_ops b)) (out_bugs of) = [1%nat; 1%nat] /\
+  cur_title (ops_of 1 (out_bugs of)) [] = placeholder.
+Proof. exists t_invisible. vm_compute. repeat split. Qed.
+Print Assumptions C16_invisible_title_refuted_pinned.
+
+(* before the repair: a display name with a tabulation; the comment of that user is never imported, his issue stops the run *)
+Definition u13 := mkuser 13 (lit "Bob" ++ [9] ++ lit "B") (lit "bob") (lit "bob@example.org") false.
+Definition t_bob := mktracker [u11; u13]
+  [mkissue 1 11 101 103 (lit "T one") (lit "d1") [mknote 101 13 false (lit "a comment") 103 103] [] [];
+   mkissue 2 13 104 104 (lit "T two") (lit "d2") [] [] []; mkissue 3 11 105 105 (lit "T three") (lit "d3") [] [] []].
+Theorem C16_user_texts_refuted_pinned : exists t,
+  let o1 := run_round (pinned gr2 true) t 20 false 110 None [] [] None in
+  let o2 := run_round (pinned gr2 true) t 20 false 120 None (out_idents o1) (out_bugs o1) (out_cursor o1) in
+  let of := run_round (fixed gr2 true) t 20 false 110 None [] [] None in
+  has_error (out_res o2) = true /\ out_cursor o2 = None /\ map (fun b => List.length (b_ops b)) (out_bugs o2) = [1%nat] /\
+  has_error (out_res of) = false /\ map (fun b => List.length (b_ops b)) (out_bugs of) = [2%nat; 1%nat; 1%nat].
+Proof. exists t_bob. vm_compute. repeat split. Qed.
+Print Assumptions C16_user_texts_refuted_pinned.
+
+(* -------- a run in which nothing fails reports nothing -------- *)
+
+(* texts_repaired c: c_dedupe_labels, c_clean_title, c_empty_text, and the placeholder title is valid (C16_placeholder_valid).
+   issue_fine c us idents i: the author of the issue can be had, and so can the user of each of its events (the id 0 always
+   can: C16_deleted_user_ok), which are all of a known kind, the title changes with a new title of which something is left.
+   tracker_comments_ok: the operation carrying the id of a comment note created a comment (true of no bugs, and kept).
+   Then, whatever the texts of the tracker are, a run in which no request fails goes through its whole listing and relays
+   no error result. *)
+Theorem C16_clean_run_reports_no_error c t p since s : texts_repaired c -> paging_ok c p -> wf_tracker t ->
+  (forall i, In i (listed t since) -> ids_disjoint i) -> rs_fault s = None ->
+  bugs_ok c t (rs_bugs s) -> tracker_comments_ok t (rs_bugs s) ->
+  (forall i, In i (listed t since) -> issue_fine c (t_users t) (rs_idents s) i) ->
+  let r := import_all c t p since s in
+  snd r = true /\ has_error (rs_res (fst r)) = has_error (rs_res s) /\ tracker_comments_ok t (rs_bugs (fst r)).
+Proof. exact (clean_run_no_error c t p since s). Qed.
+Print Assumptions C16_clean_run_reports_no_error.
+
+(* so Bridge.ImportAll stores the cursor: the next run resumes from there *)
+Theorem C16_clean_round_stores_cursor c t p (full : bool) now idents bugs (cursor : option N) : texts_repaired c -> paging_ok c p -> wf_tracker t ->
+  (forall i, In i (listed t (if full then None else cursor)) -> ids_disjoint i) ->
+  bugs_ok c t bugs -> tracker_comments_ok t bugs ->
+  (forall i, In i (listed t (if full then None else cursor)) -> issue_fine c (t_users t) idents i) ->
+  let o := run_round c t p full now None idents bugs cursor in
+  has_error (out_res o) = false /\ out_stored o = true /\ out_cursor o = Some (now - 5) /\ out_completed o = true /\
+  tracker_comments_ok t (out_bugs o).
+Proof. exact (clean_round_stores_cursor c t p full now idents bugs cursor). Qed.
+Print Assumptions C16_clean_round_stores_cursor.
+
+(* the hypotheses hold of the witnesses above: a first import of the tracker with the events of a deleted user, and of the
+   one with the invisible title and label *)
+Example C16_example_fine :
+  texts_repaired (fixed gr2 true) /\ tracker_comments_ok t_deleted [] /\
+  (forall i, In i (listed t_deleted None) -> issue_fine (fixed gr2 true) (t_users t_deleted) [] i) /\
+  (forall i, In i (listed t_invisible None) -> issue_fine (fixed gr2 true) (t_users t_invisible) [] i).
+Proof. split; [repeat split|]. split; [intros i _ b H; discriminate|]. split.
+  - intros i [<-|[]]. split; [reflexivity|]. intros e He NE.
+    destruct e as [n|l|s|]; cbn in He; [destruct He|destruct He as [<-|[]]|destruct He as [<-|[]]|congruence];
+    (split; [split; [discriminate|discriminate]|reflexivity]).
+  - intros i [<-|[<-|[]]]; (split; [reflexivity|]); intros e He NE;
+    (destruct e as [n|l|s|]; cbn in He; try (now destruct He); try congruence);
+    destruct He as [<-|[]]; (split; [split; [discriminate|discriminate]|reflexivity]). Qed.
